@@ -145,6 +145,8 @@ pub fn run_check(ctx: &mut Ctx) {
     let total = ctx.evaluations.max(1);
     let k = ctx.label_count("slots>=3");
     ctx.health(k * 100 / total >= 50, format!(">=3 slots changed in {}%", k * 100 / total));
+    let b = ctx.label_count("bool-mixed-case");
+    ctx.health(total < 5000 || b * 1000 / total >= 1, format!("mixed-case true/false in {} of {} cases", b, total));
 }
 
 pub fn replay(ctx: &mut Ctx, case: &serde_json::Value) {
